@@ -169,4 +169,31 @@ impl<T, A: Allocator> Drop for RawIntoIter<T, A> {
          edits=[(RAW, "            Err(_) => return Err(fallibility.alloc_err(layout)),", "            Err(_) => return Err(fallibility.alloc_err(Layout::new::<u64>())),")]),
     dict(name="c12-spurious-capacity-overflow", checks=["C12"], desc="layout computation reports overflow above 512 KiB",
          edits=[(RAW, "        if len > isize::MAX as usize - (ctrl_align - 1) {", "        if len > (isize::MAX as usize >> 44) - (ctrl_align - 1) {")]),
+    # ---- C17
+    dict(name="c17-isize-guard-no-padding", checks=["C17"], desc="layout guard forgets the alignment padding",
+         edits=[(RAW, "        if len > isize::MAX as usize - (ctrl_align - 1) {", "        if len > isize::MAX as usize {")]),
+    dict(name="c17-probe-stride-half", checks=["C17"], desc="probe stride advances by half a group",
+         edits=[(RAW, "        self.stride += Group::WIDTH;", "        self.stride += Group::WIDTH / 2;")]),
+    dict(name="c17-capacity-8-buckets", checks=["C17"], desc="bucket_mask_to_capacity gives all 8 buckets of a 8-bucket table",
+         edits=[(RAW, "    if bucket_mask < 8 {\n        // For tables with 1/2/4/8 buckets, we always reserve one empty slot.\n        // Keep in mind that the bucket mask is one less than the bucket count.\n        bucket_mask\n", "    if bucket_mask < 8 {\n        // For tables with 1/2/4/8 buckets, we always reserve one empty slot.\n        // Keep in mind that the bucket mask is one less than the bucket count.\n        bucket_mask + (bucket_mask == 7) as usize\n")]),
+    dict(name="c17-ctrl-offset-unchecked-mul", checks=["C17"], desc="layout uses wrapping multiplication",
+         edits=[(RAW, "            size.checked_mul(buckets)?.checked_add(ctrl_align - 1)? & !(ctrl_align - 1);", "            size.wrapping_mul(buckets).checked_add(ctrl_align - 1)? & !(ctrl_align - 1);")]),
+    # ---- C18
+    dict(name="c18-generic-match_empty-no-shift", checks=["C18"], desc="portable match_empty without << 1 (also matches DELETED)",
+         edits=[("src/control/group/generic.rs", "        BitMask((self.0 & (self.0 << 1) & repeat(Tag::DELETED)).to_le())", "        BitMask((self.0 & self.0 & repeat(Tag::DELETED)).to_le())")]),
+    dict(name="c18-generic-convert-shift-6", checks=["C18"], desc="portable convert_special uses >> 6",
+         edits=[("src/control/group/generic.rs", "        Group(!full + (full >> 7))", "        Group(!full + (full >> 6))")]),
+    dict(name="c18-bitmask-leading_zeros-stride", checks=["C18"], desc="BitMask::leading_zeros not divided by the stride",
+         edits=[("src/control/bitmask.rs", "        self.0.leading_zeros() as usize / BITMASK_STRIDE", "        self.0.leading_zeros() as usize")]),
+    dict(name="c18-sse2-convert-keeps-deleted", checks=["C18"], desc="SSE2 convert_special maps special bytes to themselves or DELETED (cmpgt operands swapped)",
+         edits=[("src/control/group/sse2.rs", "            let special = x86::_mm_cmpgt_epi8(zero, self.0);", "            let special = x86::_mm_cmpgt_epi8(self.0, zero);")]),
+    dict(name="c18-generic-match_tag-extra-bit", checks=["C18"], desc="portable match_tag drops the !cmp term (false positives anywhere)",
+         edits=[("src/control/group/generic.rs", "        BitMask((cmp.wrapping_sub(repeat(Tag(0x01))) & !cmp & repeat(Tag::DELETED)).to_le())", "        BitMask((cmp.wrapping_sub(repeat(Tag(0x01))) & repeat(Tag::DELETED)).to_le())")]),
+    # ---- C20
+    dict(name="c20-no-cautious-cap", checks=["C20"], desc="serde size hint is trusted",
+         edits=[("src/external_trait_impls/serde.rs", "        cmp::min(hint.unwrap_or(0), 4096)", "        cmp::min(hint.unwrap_or(0), usize::MAX >> 40)")]),
+    dict(name="c20-visit_map-first-wins", checks=["C20"], desc="visit_map keeps the first value of a repeated key",
+         edits=[("src/external_trait_impls/serde.rs", "                        values.insert(key, value);\n                    }\n\n                    Ok(values)\n                }\n            }\n\n            let visitor = MapVisitor {", "                        values.entry(key).or_insert(value);\n                    }\n\n                    Ok(values)\n                }\n            }\n\n            let visitor = MapVisitor {")]),
+    dict(name="c20-in_place-no-clear", checks=["C20"], desc="deserialize_in_place does not clear the set first",
+         edits=[("src/external_trait_impls/serde.rs", "                    self.0.clear();\n                    self.0.reserve", "                    self.0.reserve")]),
 ]
